@@ -34,7 +34,7 @@ def run(tier, seed):
     witness_ok = any(x.get("type") == "assert_fail" and "WITNESS" in x.get("what", "") for x in wit["records"])
     samples, n = irx_common.collect("C11", wd, rep, keys, res)
     return irx_common.finish("C11", tier, seed, t0, rep, agg, samples, witness_ok,
-                             {"functions": ["event_reader::set_configuration/has_next_event/load_next_event/_open_new_file_/_close_current_file_", "event::reset/add_particle/is_valid"], "bounds": par}, ASSUME)
+                             {"functions": ["event_reader::set_configuration/has_next_event/load_next_event/_open_new_file_/_close_current_file_", "event::reset/add_particle/is_valid"], "bounds": [j[1] for j in jobs[:-1]]}, ASSUME)
 
 
 def replay(path):
